@@ -447,6 +447,11 @@ func (w *streamingResponseWriter) WriteHeader(status int) {
 	if w.wroteHeader {
 		return
 	}
+	if status >= 100 && status <= 199 {
+		// Interim (1xx) responses are not forwarded, and they do not commit the
+		// response; the final status is set by a subsequent call.
+		return
+	}
 	w.wroteHeader = true
 
 	// Initialize the response trailers.
